@@ -2209,6 +2209,88 @@ def r11_slot_merge_key(ctx, rid):
                                           f"vectorized network (all projections at once) differs from the edge-by-edge one", facts, label=label)
 
 
+# ------------------------------------------------------------------------------------------------
+# R12  weights of parallel edges are summed: no buffered fancy-index accumulation
+# ------------------------------------------------------------------------------------------------
+
+_R12_CONTROL = '''
+def positive(tidx, sidx, weight):
+    tu, rows = np.unique(tidx, return_inverse=True)
+    su, cols = np.unique(sidx, return_inverse=True)
+    mat = np.zeros((len(tu), len(su)))
+    mat[rows.ravel(), cols.ravel()] += weight
+    return mat
+
+
+def negative_loop(tidx, sidx, weight, tu, su):
+    mat = np.zeros((len(tu), len(su)))
+    for t, s, w in zip(tidx, sidx, weight):
+        row = np.argwhere(tu == t).squeeze()
+        col = np.argwhere(su == s).squeeze()
+        mat[row, col] += w
+    return mat
+
+
+def negative_add_at(tidx, sidx, weight):
+    tu, rows = np.unique(tidx, return_inverse=True)
+    su, cols = np.unique(sidx, return_inverse=True)
+    mat = np.zeros((len(tu), len(su)))
+    np.add.at(mat, (rows.ravel(), cols.ravel()), weight)
+    return mat
+'''
+
+
+def r12_parallel_edges_are_summed(ctx, rid):
+    """The entry of the (targets x sources) weight matrix for one (target, source) pair is the SUM of the weights of all edges
+    between that pair - several parallel edges are legal, and the node-by-node compilation (one 1x1 group per pair) sums them.  When
+    the vectorized path accumulates the edge weights into the matrix, every edge must contribute: `M[rows, cols] += w` with index
+    ARRAYS is a buffered read-modify-write in numpy and applies only one contribution per distinct position, so parallel edges lose
+    all but one weight (vectorize=True differs from vectorize=False).  A per-edge loop, np.add.at or bincount are fine."""
+    from engine.srcmodel import FunctionInfo, set_parents
+    irm = ctx.repo.get_module(IR)
+    tree = ast.parse(_R12_CONTROL)
+    set_parents(tree)
+    ctrl = {fn.name: FunctionInfo(name=fn.name, qualname=f"<C04-R12 control>.{fn.name}", module=irm, node=fn) for fn in tree.body
+            if isinstance(fn, ast.FunctionDef)}
+    got = {k: len(_R.buffered_fancy_accumulations(ctx, v)) for k, v in ctrl.items()}
+    if got != {"positive": 1, "negative_loop": 0, "negative_add_at": 0}:
+        raise AnalysisError(f"{rid}: the buffered-accumulation recogniser failed its controls: {got}")
+    f0 = ctx.repo.get_func(IR, "NetworkGraph._generate_edge_equation")
+    members, todo = [f0], [(f0, 0)]
+    while todo:
+        fx, dpt = todo.pop()
+        if dpt >= 3:
+            continue
+        for c in walk_shallow(fx.node):
+            if isinstance(c, ast.Call):
+                g = _R.private_helper(ctx, fx, c)
+                if g is not None and all(g.qual != m.qual for m in members):
+                    members.append(g)
+                    todo.append((g, dpt + 1))
+    n_bad = 0
+    for fx in members:
+        bad = _R.buffered_fancy_accumulations(ctx, fx)
+        bad_ids = {id(st) for st, _ in bad}
+        for st, ix in bad:
+            n_bad += 1
+            ctx.violation(rid, fx, st, f"`{norm(st)}` accumulates through the index array `{norm(ix)}`: numpy applies `+=` once per distinct "
+                                       f"position, so of several edges between the same (target, source) pair only one weight survives, "
+                                       f"whereas the node-by-node compilation sums them; use np.add.at / a per-edge loop",
+                          label=_c16._uniq(ctx, rid, fx, f"accumulation: {norm(st)[:80]}"))
+        for kind, node in _R.accumulation_sites(ctx, fx):
+            if id(node) in bad_ids:
+                continue
+            if kind == "augassign" and not isinstance(node.target.slice, ast.Tuple):
+                continue                          # a counter / 1-D tally, not a matrix entry
+            st = stmt_of(ctx.cfg(fx), node) or node
+            ctx.ok(rid, fx, st, ("unbuffered accumulation (np.add.at): every edge contributes" if kind == "add.at" else
+                                 "accumulation by scalar positions (one edge at a time): every edge contributes"),
+                   label=_c16._uniq(ctx, rid, fx, f"accumulation: {norm(st)[:80]}"))
+    if not n_bad:
+        ctx.ok(rid, f0, f0.node, f"no buffered fancy-index accumulation in the edge-equation generator and its {len(members) - 1} private helper(s) "
+                                 f"(controls: positive matched, negatives silent)", label="parallel edges are summed", nontrivial=False)
+
+
 RULES = [
     ("C04-R1", r1_collapse_guard, 8),
     ("C04-R2", r2_append_ranges, 9),
@@ -2221,4 +2303,5 @@ RULES = [
     ("C04-R9", r9_shared_ir_slots, 2),
     ("C04-R10", r10_records_own_their_value, 6),
     ("C04-R11", r11_slot_merge_key, 1),
+    ("C04-R12", r12_parallel_edges_are_summed, 1),
 ]
